@@ -225,6 +225,8 @@ impl Authorizer {
             &self.public_key_to_block_id,
         );
 
+        #[cfg(biscuit_auth_verif)]
+        crate::verif::work(crate::verif::Site::Query);
         let res = self
             .world
             .query_rule(rule, usize::MAX, &rule_trusted_origins, &self.symbols)?;
@@ -324,6 +326,8 @@ impl Authorizer {
             )
         };
 
+        #[cfg(biscuit_auth_verif)]
+        crate::verif::work(crate::verif::Site::Query);
         let res = self
             .world
             .query_rule(rule, 0, &rule_trusted_origins, &self.symbols)?;
@@ -424,6 +428,8 @@ impl Authorizer {
                     usize::MAX,
                     &self.public_key_to_block_id,
                 );
+                #[cfg(biscuit_auth_verif)]
+                crate::verif::work(crate::verif::Site::CheckQuery);
                 let res = match check.kind {
                     CheckKind::One => self.world.query_match(
                         query,
@@ -482,6 +488,8 @@ impl Authorizer {
                         0,
                         &self.public_key_to_block_id,
                     );
+                    #[cfg(biscuit_auth_verif)]
+                    crate::verif::work(crate::verif::Site::CheckQuery);
                     let res = match check.kind {
                         CheckKind::One => self.world.query_match(
                             query.clone(),
@@ -533,6 +541,8 @@ impl Authorizer {
                     &self.public_key_to_block_id,
                 );
 
+                #[cfg(biscuit_auth_verif)]
+                crate::verif::work(crate::verif::Site::PolicyQuery);
                 let res = self.world.query_match(
                     query,
                     usize::MAX,
@@ -575,6 +585,8 @@ impl Authorizer {
                             &self.public_key_to_block_id,
                         );
 
+                        #[cfg(biscuit_auth_verif)]
+                        crate::verif::work(crate::verif::Site::CheckQuery);
                         let res = match check.kind {
                             CheckKind::One => self.world.query_match(
                                 query.clone(),
